@@ -608,7 +608,7 @@ func rulePurgerCallers(r *Report, rule string) {
 			// calls and method values
 			ast.Inspect(fi.Decl.Body, func(x ast.Node) bool {
 				id, ok := x.(*ast.Ident)
-				if !ok || info.Uses[id] != tf.Obj {
+				if !ok || canonObj(info.Uses[id]) != types.Object(tf.Obj) {
 					return true
 				}
 				n++
@@ -635,7 +635,7 @@ func rulePurgerCallers(r *Report, rule string) {
 		info := fi.Pkg.TypesInfo
 		ast.Inspect(fi.Decl.Body, func(x ast.Node) bool {
 			id, ok := x.(*ast.Ident)
-			if !ok || info.Uses[id] != pl.Obj {
+			if !ok || canonObj(info.Uses[id]) != types.Object(pl.Obj) {
 				return true
 			}
 			isGo := false
